@@ -36,6 +36,33 @@ def norm_old(t):
 _MAPS = []
 
 
+def _canon_stored(t, present):
+    """with the entry decided present / absent, `stored.unwrap_or_default()` and the payload of the decided `Some` are one thing"""
+    if not isinstance(t, tuple):
+        return t
+    old = ("vfield", ("OLD",), "Ok", "0")
+    if t and t[0] == "unwrap_or" and len(t) == 3 and t[2] == ("default", "?") and t[1] == old:
+        return ("STORED",) if present else ("default", "?")
+    if present and t == ("vfield", old, "Some", "0"):
+        return ("STORED",)
+    return tuple(_canon_stored(x, present) for x in t)
+
+
+def same_value(p, e, f, ALW, ALWS):
+    """the two halves of a paired write store the same entry: equal once each side's own stored entry is the placeholder OLD.
+    Where the path has decided one of the two entries present / absent before any write (an earlier read by the handler), the other
+    is so too under the induction hypothesis (R19.1's pre-state): its `unwrap_or_default()` is that payload / the default."""
+    a, b = norm_old(e.value), norm_old(f.value)
+    if a == b:
+        return True
+    dec = [c[1] for c in p.conds if c[1] in ("Some", "None") and c[0][0] == "vfield" and c[0][2] == "Ok" and c[0][1][0] == "may_load"
+           and c[0][1][1] in (ALW, ALWS) and c[0][1][3] == 0 and (c[0][1][2] == e.key or c[0][1][2] == f.key)]
+    if not dec or len(set(dec)) != 1:
+        return False
+    present = dec[0] == "Some"
+    return _canon_stored(a, present) == _canon_stored(b, present)
+
+
 def wkind(e):
     """update and its unfolded spelling (may_load .. save) are the same kind of write"""
     return "update" if (e.op == "update" or (e.op == "save" and e.old is not None)) else e.op
@@ -100,7 +127,7 @@ def run(ctx):
                     for j, f in enumerate(b):
                         if j in used:
                             continue
-                        if f.key == sk and (f.op == e.op or wkind(f) == wkind(e)) and norm_old(f.value) == norm_old(e.value) and f.loops == e.loops:
+                        if f.key == sk and (f.op == e.op or wkind(f) == wkind(e)) and same_value(p, e, f, ALW, ALWS) and f.loops == e.loops:
                             m = j
                             break
                     if m is not None:
